@@ -11,6 +11,7 @@ import (
 	"fmt"
 	"math/rand"
 	"os"
+	"strconv"
 	"strings"
 	"sync"
 
@@ -55,6 +56,7 @@ type issuerSet struct {
 	t3w            map[string]*t3World
 	keyIDLen       int  // != 0: requests are created with a key id argument of this length (kind OddKeyID)
 	plainAddOrigin bool // type 3: the origin is registered through AddOrigin instead of AddOriginWithIndexKey
+	scalarForm     int  // type 3: which encoding of the client secret / request blind an honest run uses (0: reduced 48-byte scalars)
 	zeroBlindLen   int  // length of that first blind (32: the zero scalar; other lengths: malformed)
 	zeroBlind      bool // type 5: the request is created with caller-supplied blinds, the first of them zero (kind ZeroBlind)
 	// one client object per token type, constructed once and used for every
@@ -238,9 +240,24 @@ func (s *issuerSet) create(t, n int, key string, challenge []byte, nonces [][]by
 	case 3:
 		w := s.world(key, origin)
 		o.pubBytes, _ = util.MarshalTokenKeyPSSOID(w.issuer.TokenKey())
-		cl := type3.NewRateLimitedClientFromSecret(p384Scalar(s.seed, "iss-client-"+clientName))
-		keyIDArg = w.issuer.TokenKeyID()
+		secretArg := p384Scalar(s.seed, "iss-client-"+clientName)
 		blindArg := p384Scalar(s.seed, "iss-blind-"+clientName+fmt.Sprint(len(challenge)))
+		// client secrets and request blinds are byte strings, not reduced scalars: every form of them works
+		N384 := elliptic.P384().Params().N
+		switch s.scalarForm % 6 {
+		case 1:
+			blindArg = bytes.Repeat([]byte{0xff}, 48) // >= N
+		case 2:
+			blindArg = new(bigInt).Add(new(bigInt).SetBytes(blindArg), N384).Bytes() // b + N: 49 bytes
+		case 3:
+			blindArg = hashBytes(s.seed, "iss-blind64-"+clientName, 64) // 64 bytes of entropy
+		case 4:
+			secretArg = new(bigInt).Add(new(bigInt).SetBytes(secretArg), N384).Bytes() // secret + N
+		case 5:
+			secretArg = hashBytes(s.seed, "iss-secret64-"+clientName, 64)
+		}
+		cl := type3.NewRateLimitedClientFromSecret(secretArg)
+		keyIDArg = w.issuer.TokenKeyID()
 		st, err := cl.CreateTokenRequest(challenge, nonces[0], blindArg, keyIDArg, w.issuer.TokenKey(), origin, w.issuer.NameKey())
 		poison(blindArg)
 		o.createErr = err
@@ -354,6 +371,9 @@ func execRun(c *ctx, in ev) ev {
 	r := newRand(c.seed, fmt.Sprintf("run-%v", in["rid"]))
 	s := &issuerSet{seed: c.seed, t3w: map[string]*t3World{}}
 	origin := strings.Repeat("o", olen)
+	if kind == "Id" {
+		s.scalarForm = jInt(in["rid"]) / 2 // (independent of the origin-name alternation below)
+	}
 	if jInt(in["rid"])%2 == 1 && olen > 0 {
 		// every other run: a mixed-case name, registered through the other entry point (AddOrigin)
 		origin = "O" + strings.Repeat("o", olen-1)
@@ -531,6 +551,9 @@ func newVerifyWorld(c *ctx, t int, r *rand.Rand) *verifyWorld {
 		w.tok = a.token
 		iss, issOther := type1.NewBasicPrivateIssuer(w.key), type1.NewBasicPrivateIssuer(w.other)
 		w.verify = func(o bool, tok tokens.Token) error {
+			// the caller uses what the issuer hands out: it appends to the key id it was given (its slice now)
+			callerAppends(iss.TokenKeyID())
+			callerAppends(issOther.TokenKeyID())
 			if o {
 				return issOther.Verify(tok)
 			}
@@ -545,6 +568,8 @@ func newVerifyWorld(c *ctx, t int, r *rand.Rand) *verifyWorld {
 		w.tok = a.tokens[1]
 		iss, issOther := type5.NewBatchedPrivateIssuer(w.key), type5.NewBatchedPrivateIssuer(w.other)
 		w.verify = func(o bool, tok tokens.Token) error {
+			callerAppends(iss.TokenKeyID())
+			callerAppends(issOther.TokenKeyID())
 			if o {
 				return issOther.Verify(tok)
 			}
@@ -552,6 +577,14 @@ func newVerifyWorld(c *ctx, t int, r *rand.Rand) *verifyWorld {
 		}
 	}
 	return w
+}
+
+// callerAppends: a caller that was handed a slice may append to it; whatever lies in the slice's spare capacity is
+// then overwritten. Nothing the library relies on may live there.
+func callerAppends(b []byte) {
+	if cap(b) > len(b) {
+		_ = append(b, bytes.Repeat([]byte{0xEE}, cap(b)-len(b))...)
+	}
 }
 
 func (w *verifyWorld) step(c *ctx, tm map[string]any, r *rand.Rand) ev {
@@ -805,8 +838,8 @@ func execRLSeq(c *ctx, in ev) []ev {
 // (the signature the client would produce), using the ECDSA fork directly.
 func signT3(secret, blind []byte, req *type3.RateLimitedTokenRequest) []byte {
 	curve := elliptic.P384()
-	sk, _ := ecdsa.CreateKey(curve, secret)
-	bk, _ := ecdsa.CreateKey(curve, blind)
+	sk, _ := rawKey(curve, secret)
+	bk, _ := rawKey(curve, blind)
 	msg := []byte{0x00, 0x03}
 	msg = append(msg, req.RequestKey...)
 	msg = append(msg, req.NameKeyID...)
@@ -987,7 +1020,11 @@ func execDet(c *ctx, in ev) []ev {
 				}
 				pe.req = st.Request().Marshal()
 				pe.fin = func() ([]byte, error) {
-					resp, err := iss.Evaluate(st.Request())
+					wire := new(type1.BasicPrivateTokenRequest) // the issuer sees the request's bytes
+					if !wire.Unmarshal(append([]byte{}, st.Request().Marshal()...)) {
+						return nil, fmt.Errorf("the request's own encoding does not decode")
+					}
+					resp, err := iss.Evaluate(wire)
 					if err != nil {
 						return nil, err
 					}
@@ -1011,7 +1048,11 @@ func execDet(c *ctx, in ev) []ev {
 				}
 				pe.req = st.Request().Marshal()
 				pe.fin = func() ([]byte, error) {
-					resp, err := iss.Evaluate(st.Request())
+					wire := new(type2.BasicPublicTokenRequest)
+					if !wire.Unmarshal(append([]byte{}, st.Request().Marshal()...)) {
+						return nil, fmt.Errorf("the request's own encoding does not decode")
+					}
+					resp, err := iss.Evaluate(wire)
 					if err != nil {
 						return nil, err
 					}
@@ -1030,7 +1071,16 @@ func execDet(c *ctx, in ev) []ev {
 				// the row's nonce/blind lists: "n1+n2" style names select the batch composition
 				var nonces, blinds [][]byte
 				bnames := strings.Split(blind, "+")
-				for i, nn := range strings.Split(nc, "+") {
+				ncs := strings.Split(nc, "+")
+				if strings.HasPrefix(nc, "many") { // a large batch: "many512" = 512 nonces, each with its own blind
+					cnt, _ := strconv.Atoi(strings.TrimPrefix(nc, "many"))
+					ncs, bnames = nil, nil
+					for i := 0; i < cnt; i++ {
+						ncs = append(ncs, fmt.Sprintf("m%d", i))
+						bnames = append(bnames, fmt.Sprintf("%s-%d", blind, i))
+					}
+				}
+				for i, nn := range ncs {
 					nonces = append(nonces, arg(&own, fmt.Sprintf("nonce5-%d", i), hashBytes(c.seed, "det-nonce-"+nn, 32)))
 					blinds = append(blinds, arg(&own, fmt.Sprintf("blind5-%d", i), detBlind(c.seed, 5, bnames[i])))
 					pe.enames = append(pe.enames, []any{nn, bnames[i]})
@@ -1046,7 +1096,11 @@ func execDet(c *ctx, in ev) []ev {
 					pe.elems = append(pe.elems, append([]byte{}, x...))
 				}
 				pe.fin = func() ([]byte, error) {
-					resp, err := iss.Evaluate(st.Request())
+					wire := new(type5.BatchedPrivateTokenRequest)
+					if !wire.Unmarshal(append([]byte{}, st.Request().Marshal()...)) || len(wire.BlindedReq) != len(nonces) {
+						return nil, fmt.Errorf("the request's own encoding does not decode to the request")
+					}
+					resp, err := iss.Evaluate(wire)
 					if err != nil {
 						return nil, err
 					}
@@ -1855,6 +1909,7 @@ func genIssuance(c *ctx, emit func(ev)) {
 		for _, key := range []string{"k1", "k2"} {
 			for _, comp := range [][2]string{{"n1+n2", "b1+b2"}, {"n1+n2", "b2+b1"}, {"n2+n1", "b2+b1"}, {"n1", "b1"}, {"n2", "b2"}, {"n1", "b2"},
 				{"n1+n2+n3", "b1+b2+one"}, {"n3+n1", "one+b1"}, {"n1+n2", "b1+b1"}, {"n1+n2", "b1+b2"}, {"n1+n2", "lead0+b2"}, {"n1+n2", "b3+b4"},
+				{"many511", "mb"}, {"many512", "mb"}, {"many512", "mb"}, {"many512", "mc"},
 				{"n1", "zero"}, {"n1+n2", "b1+zero"}, {"n1+n2", "zero+b2"}, {"n1", "short"}, {"n1+n2", "short+b2"}, {"n1+n2+n3", "b1+short+b2"}} {
 				rows = append(rows, ev{"t": 5, "key": key, "nc": comp[0], "blind": comp[1], "salt": "s1"})
 			}
